@@ -139,7 +139,9 @@ def families(tier, seed, b):
         st = mk(refs)
         st["tag"] = "main"
         B.add(st)
-        progs.append(B.build())
+        nafter[0] += 1
+        progs.append(dict(B.build(), fresh=(nafter[0] % 3 == 0)))     # every third one in an interpreter of its own
+    nafter = [0]
     for pre in ("g0", "g1", "ite0", "exc0"):
         for nm in gen.ASSERT1 + ["to_bits", "check_positive", "check_zero"]:
             for x in core:
